@@ -63,7 +63,8 @@ def run_one(case):
         for d in (work, bindir, tmpd):
             os.makedirs(d)
         materialise(work, case["layout"])
-        shutil.copy(os.path.join(BIN, "recorder"), os.path.join(bindir, "recorder"))
+        # a symlink, not a copy: copying and exec'ing from several threads races on ETXTBSY ("text file busy")
+        os.symlink(os.path.join(BIN, "recorder"), os.path.join(bindir, "recorder"))
         os.symlink(os.path.join(BIN, "bklb"), os.path.join(bindir, "recorderb"))
         rec = os.path.join(W, "record.json")
         env = {"PATH": bindir + ":/usr/bin:/bin", "RECORD_OUT": rec, "TMPDIR": tmpd, "HOME": W}
